@@ -247,11 +247,16 @@ type stats struct {
 	successWithHistory        bool
 	rollbacks                 int
 	postChecks                int
+	// interloper reconciles (c14_interloper_test.go)
+	interRuns, interSameType, interOtherType, interComputedName int
+	interK                                                      map[int]int
 }
 
 type world struct {
 	sim     *verifsim.Sim
 	fl      flavour
+	fl2     flavour    // flavour of the other-type interloper package ("gamma")
+	inter   *interPlan // interloper plan of the next reconcile (consumed by it)
 	reg     *registry
 	fail    func(format string, a ...any)
 	cur     *reconCtx
@@ -272,9 +277,21 @@ func newWorld(fl flavour, fail func(string, ...any)) *world {
 	return w
 }
 
-func (w *world) pkgKey(n string) verifsim.Key { return verifsim.Key{Group: group, Kind: w.fl.Kind, Name: n} }
-func (w *world) revKey(n string) verifsim.Key {
-	return verifsim.Key{Group: group, Kind: w.fl.RevKind, Name: n}
+// flOf returns the flavour of a package: "gamma" is the package of another type
+// (it only ever acts as the interloper of c14_interloper_test.go), all others
+// have the world's primary flavour.
+func (w *world) flOf(pkg string) flavour {
+	if pkg == otherTypePkg && w.fl2.Kind != "" {
+		return w.fl2
+	}
+	return w.fl
+}
+
+func (w *world) pkgKey(n string) verifsim.Key {
+	return verifsim.Key{Group: group, Kind: w.flOf(n).Kind, Name: n}
+}
+func (w *world) revKey(pkg, n string) verifsim.Key {
+	return verifsim.Key{Group: group, Kind: w.flOf(pkg).RevKind, Name: n}
 }
 
 func (w *world) logf(f string, a ...any) { w.hist = append(w.hist, fmt.Sprintf(f, a...)) }
@@ -297,7 +314,7 @@ func (w *world) createPackage(n string, sp pkgSpec) {
 	if sp.PullPolicy != "" {
 		spec["packagePullPolicy"] = sp.PullPolicy
 	}
-	u := &unstructured.Unstructured{Object: map[string]any{"apiVersion": apiVersion, "kind": w.fl.Kind, "metadata": map[string]any{"name": n}, "spec": spec}}
+	u := &unstructured.Unstructured{Object: map[string]any{"apiVersion": apiVersion, "kind": w.flOf(n).Kind, "metadata": map[string]any{"name": n}, "spec": spec}}
 	w.sim.MustCreate("user", u)
 	w.logf("create %s %+v", n, describe(sp))
 }
@@ -322,7 +339,7 @@ func (w *world) editPackage(n string, f func(spec map[string]any)) {
 	c := w.sim.Client("user")
 	u := &unstructured.Unstructured{}
 	u.SetAPIVersion(apiVersion)
-	u.SetKind(w.fl.Kind)
+	u.SetKind(w.flOf(n).Kind)
 	if err := c.Get(context.Background(), types.NamespacedName{Name: n}, u); err != nil {
 		return
 	}
@@ -340,7 +357,7 @@ func (w *world) editPackage(n string, f func(spec map[string]any)) {
 // revisions returns the live revisions of a package, ordered by number then name.
 func (w *world) revisions(pkg string) []revInfo {
 	var out []revInfo
-	for _, k := range w.sim.Keys(w.revKey("").GK()) {
+	for _, k := range w.sim.Keys(w.revKey(pkg, "").GK()) {
 		o := w.sim.Get(k)
 		if o == nil {
 			continue
@@ -363,11 +380,11 @@ func sortRevs(l []revInfo) {
 }
 
 // editRevision is an edit of a revision by somebody else than the package manager.
-func (w *world) editRevision(actor, n string, status bool, f func(u *unstructured.Unstructured)) {
+func (w *world) editRevision(actor, pkg, n string, status bool, f func(u *unstructured.Unstructured)) {
 	c := w.sim.Client(actor)
 	u := &unstructured.Unstructured{}
 	u.SetAPIVersion(apiVersion)
-	u.SetKind(w.fl.RevKind)
+	u.SetKind(w.flOf(pkg).RevKind)
 	if err := c.Get(context.Background(), types.NamespacedName{Name: n}, u); err != nil {
 		return
 	}
@@ -421,7 +438,7 @@ func (w *world) expect(pkg string) *reconCtx {
 
 func (w *world) liveRevs(v *verifsim.View, pkg string) map[string]revInfo {
 	out := map[string]revInfo{}
-	for _, k := range v.List(w.revKey("").GK()) {
+	for _, k := range v.List(w.revKey(pkg, "").GK()) {
 		if ri := infoOf(k, v.Get(k)); ri.Parent == pkg {
 			out[k.Name] = ri
 		}
@@ -430,12 +447,16 @@ func (w *world) liveRevs(v *verifsim.View, pkg string) map[string]revInfo {
 }
 
 func (w *world) monitor(v *verifsim.View, wr *verifsim.Write) {
-	if wr.DryRun || wr.Actor != mgrActor || wr.Key.Group != group || wr.Key.Kind != w.fl.RevKind {
+	if wr.DryRun || (wr.Actor != mgrActor && wr.Actor != interActor) || wr.Key.Group != group || !isRevKind(wr.Key.Kind) {
 		return
 	}
 	c := w.cur
 	if c == nil {
 		v.Violate("harness: package manager write #%d outside a reconcile", wr.Seq)
+		return
+	}
+	if k := w.flOf(c.Pkg).RevKind; wr.Key.Kind != k {
+		v.Violate("GC-OWN: reconcile of %s %q wrote %s %s (write #%d)", w.flOf(c.Pkg).Kind, c.Pkg, wr.Key.Kind, wr.Key.Name, wr.Seq)
 		return
 	}
 	if wr.Verb == "delete" {
@@ -538,13 +559,14 @@ func (w *world) check(ctx string) {
 // ---------------------------------------------------------------------------
 // running the real reconciler
 
-func (w *world) newReconciler(c client.Client) reconcile.Reconciler {
+func (w *world) newReconciler(pkg string, c client.Client) reconcile.Reconciler {
+	fl := w.flOf(pkg)
 	mgr := &fakeManager{c: c, scheme: w.sim.Scheme}
-	ctrlName := "packages/" + strings.ToLower(w.fl.Kind) + "." + group
+	ctrlName := "packages/" + strings.ToLower(fl.Kind) + "." + group
 	r := manager.NewReconciler(mgr,
-		manager.WithNewPackageFn(w.fl.newPkg),
-		manager.WithNewPackageRevisionFn(w.fl.newRev),
-		manager.WithNewPackageRevisionListFn(w.fl.newList),
+		manager.WithNewPackageFn(fl.newPkg),
+		manager.WithNewPackageRevisionFn(fl.newRev),
+		manager.WithNewPackageRevisionListFn(fl.newList),
 		manager.WithRevisioner(manager.NewPackageRevisioner(w.reg, manager.WithDefaultRegistry(xpkg.DefaultRegistry))),
 		manager.WithConfigStore(xpkg.NewImageConfigStore(mgr.GetClient(), "crossplane-system")),
 		manager.WithLogger(logging.NewNopLogger()),
@@ -559,6 +581,8 @@ type outcome struct {
 	res     reconcile.Result
 	err     error
 	success bool
+	// logStart is the length of the write log when the reconcile started.
+	logStart int
 }
 
 // reconcile runs one manager reconcile of pkg under a fault plan and evaluates
@@ -568,14 +592,22 @@ func (w *world) reconcile(pkg string, plan map[int]verifsim.Fault, where string)
 	before := w.revisions(pkg)
 	w.cur = c
 	run := w.sim.NewRun(mgrActor, plan)
-	res, err := w.newReconciler(run.Client()).Reconcile(context.Background(), reconcile.Request{NamespacedName: types.NamespacedName{Name: pkg}})
+	var cl client.Client = run.Client()
+	ip := w.inter
+	w.inter = nil
+	if ip != nil {
+		ip.fired = nil
+		cl = &interClient{Client: cl, w: w, run: run, plan: ip}
+	}
+	logStart := w.sim.LogLen()
+	res, err := w.newReconciler(pkg, cl).Reconcile(context.Background(), reconcile.Request{NamespacedName: types.NamespacedName{Name: pkg}})
 	w.cur = nil
-	o := outcome{ctx: c, run: run, res: res, err: err, success: err == nil && !res.Requeue && c.Exists}
+	o := outcome{ctx: c, run: run, res: res, err: err, success: err == nil && !res.Requeue && c.Exists, logStart: logStart}
 	if err != nil && strings.Contains(err.Error(), "VERIF-INCONCLUSIVE") {
 		w.fail("VERIF-INCONCLUSIVE: %v", err)
 	}
 	w.st.gcDeletes += c.Deletes
-	ctx := fmt.Sprintf("%s: reconcile of %s %q (plan %v, expected current revision %q, limit %d nil=%v, revisions before %s) returned (%+v, %v)", where, w.fl.Kind, pkg, planString(plan), c.Expected, c.Limit, c.LimitNil, revString(before), res, err)
+	ctx := fmt.Sprintf("%s: reconcile of %s %q (plan %v, expected current revision %q, limit %d nil=%v, revisions before %s) returned (%+v, %v)", where, w.flOf(pkg).Kind, pkg, planString(plan)+ip.String(), c.Expected, c.Limit, c.LimitNil, revString(before), res, err)
 	w.check(ctx)
 	switch {
 	case o.success:
@@ -706,6 +738,7 @@ func (w *world) sweep(rec *verifkit.Recorder, pkg, where string) outcome {
 	base := w.sim.Snapshot()
 	baseCreated := copyCreated(w.created)
 	probe := w.reconcile(pkg, nil, where+" / sweep probe")
+	probeWrites := w.ownWrites(probe.logStart)
 	K := probe.run.N
 	rec.AddExtra("sweep_api_calls", K)
 	nrev := len(w.revisions(pkg))
@@ -724,6 +757,7 @@ func (w *world) sweep(rec *verifkit.Recorder, pkg, where string) outcome {
 			}
 		}
 	}
+	w.interSweep(rec, pkg, where, base, baseCreated, probe, probeWrites)
 	w.sim.Restore(base)
 	w.created = copyCreated(baseCreated)
 	return w.reconcile(pkg, nil, where)
@@ -839,7 +873,7 @@ func (w *world) rollbackToOldest(t *rapid.T, pkg string) bool {
 		w.logf("rollback %s to oldest revision %s via %s", pkg, old.Name, short(src))
 	} else {
 		// The revision was created under pull policy Never: its identity is its source.
-		o := w.sim.Get(w.revKey(old.Name))
+		o := w.sim.Get(w.revKey(pkg, old.Name))
 		src, _ := verifsim.Nested(o, "spec", "image").(string)
 		if src == "" {
 			return false
@@ -891,12 +925,18 @@ func (w *world) step(t *rapid.T, rec *verifkit.Recorder, i int, sweeping bool) {
 	pkg := w.pickPkg(t)
 	where := fmt.Sprintf("step %d", i)
 	doReconcile := func(plan map[int]verifsim.Fault) {
-		w.logf("reconcile %s plan=%s", pkg, planString(plan))
 		if sweeping {
+			w.logf("reconcile %s plan=%s", pkg, planString(plan))
 			w.sweep(rec, pkg, where)
 			return
 		}
+		ip := w.genInterPlan(t, pkg)
+		w.logf("reconcile %s plan=%s%s", pkg, planString(plan), ip.String())
+		w.inter = ip
 		w.reconcile(pkg, plan, where)
+		if ip != nil && len(ip.fired) > 0 {
+			rec.Label(interClass)
+		}
 	}
 	a := w.uniform(t, "action", 100)
 	switch {
@@ -980,7 +1020,7 @@ func (w *world) step(t *rapid.T, rec *verifkit.Recorder, i int, sweeping bool) {
 		rec.Label("act:revision-health")
 		if r, ok := w.pickRev(t, pkg); ok {
 			st := rapid.SampledFrom([]string{"True", "False", "Unknown"}).Draw(t, "healthy")
-			w.editRevision("revision-controller", r.Name, true, func(u *unstructured.Unstructured) {
+			w.editRevision("revision-controller", pkg, r.Name, true, func(u *unstructured.Unstructured) {
 				_ = unstructured.SetNestedSlice(u.Object, []any{map[string]any{"type": "Healthy", "status": st, "reason": "HealthyPackageRevision", "lastTransitionTime": "2024-01-01T00:00:00Z"}}, "status", "conditions")
 			})
 			w.logf("revision %s Healthy=%s", r.Name, st)
@@ -989,7 +1029,7 @@ func (w *world) step(t *rapid.T, rec *verifkit.Recorder, i int, sweeping bool) {
 		rec.Label("act:revision-finalizer")
 		if r, ok := w.pickRev(t, pkg); ok {
 			add := rapid.Bool().Draw(t, "add")
-			w.editRevision("revision-controller", r.Name, false, func(u *unstructured.Unstructured) {
+			w.editRevision("revision-controller", pkg, r.Name, false, func(u *unstructured.Unstructured) {
 				if add {
 					if !r.Terminating {
 						u.SetFinalizers([]string{revFin})
@@ -1004,7 +1044,7 @@ func (w *world) step(t *rapid.T, rec *verifkit.Recorder, i int, sweeping bool) {
 		rec.Label("act:user-sets-desired-state")
 		if r, ok := w.pickRev(t, pkg); ok {
 			ds := rapid.SampledFrom([]string{"Active", "Inactive"}).Draw(t, "ds")
-			w.editRevision("user", r.Name, false, func(u *unstructured.Unstructured) {
+			w.editRevision("user", pkg, r.Name, false, func(u *unstructured.Unstructured) {
 				_ = unstructured.SetNestedField(u.Object, ds, "spec", "desiredState")
 			})
 			w.logf("user sets revision %s desiredState=%s", r.Name, ds)
@@ -1014,7 +1054,7 @@ func (w *world) step(t *rapid.T, rec *verifkit.Recorder, i int, sweeping bool) {
 		if r, ok := w.pickRev(t, pkg); ok {
 			u := &unstructured.Unstructured{}
 			u.SetAPIVersion(apiVersion)
-			u.SetKind(w.fl.RevKind)
+			u.SetKind(w.flOf(pkg).RevKind)
 			u.SetName(r.Name)
 			_ = w.sim.Client("user").Delete(context.Background(), u)
 			w.logf("user deletes revision %s", r.Name)
@@ -1037,10 +1077,14 @@ func (w *world) finish(rec *verifkit.Recorder) {
 	// Bring both packages to a fault-free, resolvable end state and judge it.
 	w.reg.Failing = false
 	w.logf("registry: failing=false (end)")
-	for _, p := range pkgNames {
+	for _, p := range append(append([]string(nil), pkgNames...), otherTypePkg) {
+		if w.sim.Get(w.pkgKey(p)) == nil {
+			continue
+		}
 		w.logf("final reconciles %s", p)
 		w.recover(p, "end of history")
 	}
+	w.finishInterloper(rec)
 	rec.Labelf("max-revisions=%d", w.st.maxRevs)
 	if w.st.gcDeletes > 0 {
 		rec.Label("history:gc-deleted-a-revision")
@@ -1068,6 +1112,19 @@ func setup(t *rapid.T, rec *verifkit.Recorder) *world {
 	for _, p := range pkgNames {
 		w.createPackage(p, w.genSpec(t))
 	}
+	// A package of another type: it only acts as an interloper (c14_interloper_test.go).
+	var others []flavour
+	for _, f := range flavours {
+		if f.Kind != fl.Kind {
+			others = append(others, f)
+		}
+	}
+	w.fl2 = others[w.uniform(t, "other-flavour", len(others))]
+	sp := w.genSpec(t)
+	if sp.PullPolicy == "IfNotPresent" {
+		sp.PullPolicy = "Always" // it shall resolve its image (and compute a revision name) every time
+	}
+	w.createPackage(otherTypePkg, sp)
 	return w
 }
 
